@@ -30,6 +30,7 @@ def run(prog, chk):
     chk.rule(axis_lines, prog, chk)
     chk.rule(wiring, prog, chk)
     chk.rule(location_choice, prog, chk)
+    chk.rule(chooser_runs_only_for_unset_ends, prog, chk)
     chk.rule(all_candidates_measured, prog, chk)
     chk.rule(connection_type_verbatim, prog, chk)
     chk.rule(chosen_only_when_not_given, prog, chk)
@@ -170,6 +171,60 @@ def chosen_only_when_not_given(prog, chk):
             n += 1
             chk.ob(tname in tested and all(x.endswith("_loc") for x in tested), "A15.location-choice", f"{tname}:only-when-absent", fe.where(line=iff.get("line")), f"`{tname}` is chosen automatically only under `{tname}.is_none()`", f"`{tname}` is assigned an automatically chosen location under a test of {tested or 'something else'} instead of `{tname}.is_none()`: a location the author named (e.g. @br, @c - which have no direction) is overwritten by the closest candidate")
     chk.floor("A15.location-choice:only-when-absent", n, 4, "automatic choice of an attachment location")
+
+
+def chooser_runs_only_for_unset_ends(prog, chk):
+    """decided on paths, whatever the source idiom: a location chooser (shortest_link for both ends, closest_loc for
+    one) is called only on paths on which every place that will receive a part of its result is still `None`.  With
+    one location given, shortest_link (which picks the pair of locations nearest to each other) must not run: the free
+    end is to be the one closest to the *given* point"""
+    from sa import discharge as D
+
+    fe = prog.body(CON + "Connector::from_element")
+    chk.touch(fe)
+    n = 0
+    for (bb, t, c) in fe.call_sites(lambda c: c.path.split("::")[-1] in ("shortest_link", "closest_loc") and c.path.startswith("svgdx::connector::")):
+        if not t.get("dest") or t["dest"][1]:
+            continue
+        # locals that hold (a part of) the call's result: through `?`, moves and the components of the pair
+        derived, work = {t["dest"][0]}, [t["dest"][0]]
+        while work:
+            l = work.pop()
+            for (b2, i2, node, how) in R.uses_of(fe, l):
+                nl = None
+                if i2 == R.TERM and node.get("k") == "call" and "fn" in node and Callee(node["fn"]).decl_path == "std::ops::Try::branch" and node.get("dest") and not node["dest"][1]:
+                    nl = node["dest"][0]
+                elif i2 != R.TERM and "rv" in node and node["rv"].get("k") in ("use", "cast") and not node["lhs"][1] and (op_place(node["rv"].get("op")) or (None,))[0] == l:
+                    nl = node["lhs"][0]
+                if nl is not None and nl not in derived:
+                    derived.add(nl)
+                    work.append(nl)
+        stores = set()
+        for b2, i2, node in fe.all_stmts():
+            rv = node.get("rv") or {}
+            if rv.get("k") == "aggr" and rv.get("variant") == "Some" and rv.get("adt") == "std::option::Option" and rv.get("ops"):
+                op0 = op_place(rv["ops"][0])
+                if op0 is not None and op0[0] in derived and "lhs" in node:
+                    pl = D._norm(fe, P(node["lhs"]))
+                    # a temporary that is moved on into the place proper
+                    for _ in range(3):
+                        us = [u for u in R.uses_of(fe, pl[0]) if u[3] != "drop"] if not pl[1] and not fe.local_name(pl[0]) else []
+                        mv = [u for u in us if u[1] != R.TERM and "rv" in u[2] and u[2]["rv"].get("k") == "use" and (op_place(u[2]["rv"]["op"]) or (None,))[0] == pl[0]]
+                        if len(us) == 1 and mv:
+                            pl = D._norm(fe, P(mv[0][2]["lhs"]))
+                        else:
+                            break
+                    stores.add(pl)
+        stores = sorted(stores)
+        name = c.path.split("::")[-1]
+        if not stores:
+            chk.undecided("A15.location-choice", f"{name}:runs-for-unset", fe.where(bb, t.get("line")), f"where the result of {name}() is stored is not read here")
+            continue
+        for pl in stores:
+            n += 1
+            feas = D._reach_with_fact(prog, fe, bb, pl, 1)
+            chk.ob(feas is False, "A15.location-choice", f"{name}:runs-for-unset:{D._pname(fe, pl)}", fe.where(bb, t.get("line")), f"{name}() runs only while `{D._pname(fe, pl)}`, which receives its result, is not given", f"{name}() can run although `{D._pname(fe, pl)}` - an end that receives its result - was given by the author: with one location given the other end must be the one closest to that point (closest_loc), not one of the pair shortest_link picks without regard to it")
+    chk.floor("A15.location-choice:runs-for-unset", n, 4, "(chooser call, receiving end) pair")
 
 
 def location_choice(prog, chk):
